@@ -38,8 +38,8 @@ META = {
     "assumptions": ["limits family: part sizes/kinds come from an enumerated form list (sequence lengths are concrete in this engine); the two limits "
                     "are unbounded symbolic integers (max_form_memory_size may also be None)",
                     "buffer family: content = k free bytes (0..255) followed by symbolic bytes assumed to be neither CR nor LF; CRLF framing"],
-    "bounds": {"quick": {"forms": 8, "free_leading_bytes": 2, "tail_bytes": 14, "chunk_sizes": [1, 5]},
-               "thorough": {"forms": 12, "free_leading_bytes": 3, "tail_bytes": 24, "chunk_sizes": [1, 3, 8]}},
+    "bounds": {"quick": {"forms": 12, "free_leading_bytes": 3, "tail_bytes": 24, "chunk_sizes": [1, 3, 8]},
+               "thorough": {"forms": 12, "free_leading_bytes": 3, "tail_bytes": 40, "chunk_sizes": [1, 2, 3, 8, 16]}},
     "outside": ["contents with line breaks after the leading bytes other than the stated delimiter look-alike line (C01 covers exactness there)", "transport padding after a REAL delimiter (padding after a look-alike: job lookalike-padding, a recorded finding)",
                 "spooling of UploadFile to disk"],
     "expect_kinds": {"all": ["accepted", "413", "bounded"]},
